@@ -5,9 +5,9 @@ WT = "/tmp/wt/E"
 def sh(cmd, cwd=None, env=None, timeout=3600):
     r = subprocess.run(cmd, shell=True, cwd=cwd, env=env, capture_output=True, text=True, timeout=timeout)
     return r.returncode, r.stdout + r.stderr
-RELATED = {"C01": ["C01", "C11", "C14"], "C02": ["C02", "C01", "C11"], "C03": ["C03", "C13"], "C04": ["C04", "C01"], "C05": ["C05", "C09"], "C06": ["C06", "C05"],
-           "C09": ["C09", "C01"], "C10": ["C10", "C18"], "C11": ["C11", "C01"], "C12": ["C12", "C10"], "C13": ["C13", "C03", "C16"], "C14": ["C14", "C15"], "C15": ["C15", "C01"],
-           "C16": ["C16"], "C18": ["C18"], "C19": ["C19"], "C20": ["C20"]}
+RELATED = {"C01": ["C01", "C11"], "C02": ["C02", "C01", "C11"], "C03": ["C03", "C10", "C02"], "C04": ["C04", "C03", "C05"], "C05": ["C05", "C11", "C01"], "C06": ["C06", "C05", "C15"],
+           "C09": ["C09", "C01"], "C10": ["C10", "C18"], "C11": ["C11", "C01"], "C12": ["C12", "C10", "C16"], "C13": ["C13", "C16", "C03"], "C14": ["C14", "C02", "C11"], "C15": ["C15", "C01"],
+           "C16": ["C16", "C12"], "C18": ["C18", "C11", "C03"], "C19": ["C19"], "C20": ["C20", "C18"]}
 dirs = sys.argv[1:] or sorted(glob.glob("/tmp/mut/C*/[ab]"))
 out = open("/tmp/mut/eval.jsonl", "a")
 for d in dirs:
